@@ -40,9 +40,10 @@ prop("C19", level="exploration",
 def plan_c19(tier, seed):
     n = 1_000_000 if tier == "quick" else 40_000_000
     runs = []
-    for v in ("std-debug", "std-release"):
+    # all four combinations of (debug assertions, overflow checks)
+    for v in ("std-debug", "std-release", "std-release-ovf", "std-debug-wrap"):
         if tier == "quick":
-            runs.append(Run(v, "c19", ["seed=%d" % seed, "random=%d" % n], timeout=300))
+            runs.append(Run(v, "c19", ["seed=%d" % seed, "random=%d" % (n if v in ("std-debug", "std-release") else n // 4)], timeout=300))
         else:
             for i in range(8):
                 runs.append(Run(v, "c19", ["seed=%d" % (seed * 1000 + i), "random=%d" % (n // 8)], timeout=1200))
@@ -114,6 +115,7 @@ def plan_c09(tier, seed):
     if tier == "quick":
         runs = shards("std-debug", "c09", 8, ["seed=%d" % seed, "cases=2400", "noexh"], timeout=600)
         runs.append(Run("std-release", "c09", ["seed=%d" % seed, "cases=0"], timeout=600))
+        runs.append(Run("std-release-ovf", "c09", ["seed=%d" % (seed + 5), "cases=300", "noexh", "nohuge"], timeout=600))
         return runs
     runs = shards("std-debug", "c09", 16, ["seed=%d" % seed, "cases=200000", "noexh"], timeout=3400)
     runs.append(Run("std-release", "c09", ["seed=%d" % seed, "cases=0", "xbs=40"], timeout=3000))
@@ -287,9 +289,14 @@ def plan_c07(tier, seed):
     if tier == "quick":
         runs = shards("std-debug", "c07", 4, ["seed=%d" % seed, "cases=120"], timeout=600, crash_is_violation=True)
         runs += shards("std-release", "c07", 4, ["seed=%d" % seed, "cases=120"], timeout=600, crash_is_violation=True)
+        # the two mixed configurations: overflow checks without debug assertions, and the reverse
+        runs += shards("std-release-ovf", "c07", 2, ["seed=%d" % (seed + 2), "cases=60"], timeout=600, crash_is_violation=True)
+        runs += shards("std-debug-wrap", "c07", 2, ["seed=%d" % (seed + 3), "cases=60"], timeout=600, crash_is_violation=True)
         return runs
     runs = shards("std-debug", "c07", 16, ["seed=%d" % seed, "cases=6000"], timeout=3400, crash_is_violation=True)
     runs += shards("std-release", "c07", 16, ["seed=%d" % seed, "cases=6000"], timeout=3400, crash_is_violation=True)
+    runs += shards("std-release-ovf", "c07", 8, ["seed=%d" % (seed + 2), "cases=3000"], timeout=3400, crash_is_violation=True)
+    runs += shards("std-debug-wrap", "c07", 8, ["seed=%d" % (seed + 3), "cases=3000"], timeout=3400, crash_is_violation=True)
     runs += shards("xen-debug", "c07", 4, ["seed=%d" % (seed + 1), "cases=400"], timeout=3400, crash_is_violation=True)
     runs += shards("xen-release", "c07", 4, ["seed=%d" % (seed + 1), "cases=400"], timeout=3400, crash_is_violation=True)
     runs += shards("miri", "c07", 16, ["seed=%d" % seed, "cases=16", "batch=400"], timeout=3400)
@@ -504,8 +511,8 @@ FLOORS["C06"] = {"judged_single_access_transfers": 3000, "tearing_reads": 1_000_
 prop("C08", level="model_checking",
      title="A dirty mark is never lost when marking races with harvesting the bitmap",
      technique="stateless model checking of the real code under a controlled scheduler: a cfg-guarded shim (hook H2) puts a yield point in front of every atomic operation on the bitmap words, exactly one managed thread runs between two yield points, and ALL interleavings of each catalogue program are executed (DFS over choice strings with prefix replay); each execution's API-boundary history is checked for per-page linearizability against a boolean with set / clear / test-and-clear / read plus a quiescent final read; seeded random schedules for larger programs; free-running threads natively, under TSan and under Miri many-seeds",
-     rule="states = scheduler decision points, transitions = atomic steps granted; programs: 12 hand-written catalogue programs of 2..3 threads on pages that share one 64-bit word or span two (two markers + harvester, marker range vs harvester, markers + clone, marker spanning words, marker vs reset_range vs harvester, set_bit vs reset_bit, marker vs two harvesters, mark_dirty vs harvest vs is_bit_set, three markers, marker vs reset(), re-mark after harvest, range mark vs range reset) plus a systematic family of 44 programs (each of 8 operations X - reset_range, reset_bit, set_bit, mark_range, mark_dirty, harvest, reset(), wide reset_range - issued on an already dirty page while a second thread performs two further read-modify-writes on the same word, in 5 shapes: two marks, mark then harvest, harvest then mark, mark then unmark, same page twice; 4 three-thread variants with a marker and a harvester; and 20 programs that start from a value-dependent initial state set up before the threads run - the first word fully dirty, fully dirty but one page, two words fully dirty - with two harvesters, harvest vs reset+re-mark, harvest vs re-mark+harvest, reset()/reset_range/clone vs harvest+re-mark) - every interleaving of each is executed (47 627 schedules); one random program in three also starts from a fully dirty word; random 3-thread programs of up to 12 calls under seeded PCT-style schedules; 2x10^3..10^5 free-running histories. An execution is non-trivial when two different threads touch the same word back-to-back",
-     exhaustive_note="all interleavings (at the granularity of whole atomic operations, sequentially consistent) of the 76 catalogue programs",
+     rule="states = scheduler decision points, transitions = atomic steps granted; programs: 12 hand-written catalogue programs of 2..3 threads on pages that share one 64-bit word or span two (two markers + harvester, marker range vs harvester, markers + clone, marker spanning words, marker vs reset_range vs harvester, set_bit vs reset_bit, marker vs two harvesters, mark_dirty vs harvest vs is_bit_set, three markers, marker vs reset(), re-mark after harvest, range mark vs range reset) plus a systematic family of 44 programs (each of 8 operations X - reset_range, reset_bit, set_bit, mark_range, mark_dirty, harvest, reset(), wide reset_range - issued on an already dirty page while a second thread performs two further read-modify-writes on the same word, in 5 shapes: two marks, mark then harvest, harvest then mark, mark then unmark, same page twice; 4 three-thread variants with a marker and a harvester; and 20 programs that start from a value-dependent initial state set up before the threads run - the first word fully dirty, fully dirty but one page, two words fully dirty - with two harvesters, harvest vs reset+re-mark, harvest vs re-mark+harvest, reset()/reset_range/clone vs harvest+re-mark) - and 14 LONG-range programs (a mark / reset / mark_dirty range over three words, 72 atomic steps, against one or two foreign steps in its first, last or an interior word) - every interleaving of each is executed (221 527 schedules); one random program in three also starts from a fully dirty word; random 3-thread programs of up to 12 calls under seeded PCT-style schedules; 2x10^3..10^5 free-running histories. An execution is non-trivial when two different threads touch the same word back-to-back",
+     exhaustive_note="all interleavings (at the granularity of whole atomic operations, sequentially consistent) of the 90 catalogue programs",
      assumptions=["interleavings are explored at atomic-operation granularity under sequential consistency; weaker-than-SC effects are left to Miri's weak-memory emulation and TSan", "the linearizability checker (60 lines, brute force with memoisation, <= 24 operations per page) is trusted", "reset() is modelled as a per-page clear (it is documented as not harvesting)"],
      level_text="Exhaustive exploration of all interleavings of bounded concurrent programs executed on the real implementation (not a model), with a linearizability oracle per execution; sampling beyond the catalogue.",
      level_note="Bounded programs only; the yield points exist only in --cfg vm_memory_verif builds (the shim forwards to std's AtomicU64 with the caller's ordering).",
@@ -532,7 +539,7 @@ def plan_c08(tier, seed):
     return runs
 
 
-FLOORS["C08"] = {"schedules_explored": 47_000, "programs_exhausted": 76, "schedules_with_cross_thread_contention_on_one_word": 20_000, "free_histories": 5000}
+FLOORS["C08"] = {"schedules_explored": 220_000, "programs_exhausted": 90, "schedules_with_cross_thread_contention_on_one_word": 20_000, "free_histories": 5000}
 
 # ----------------------------------------------------------------------------------------------
 prop("C11", level="exploration",
